@@ -4,7 +4,7 @@ CONSTANTS
   MaxSteps = 1
   MaxW = 8
   FreshOnly = TRUE
-  Ops = {"bin", "un", "slice", "compose", "cond", "ext"}
+  Ops = {"bin", "un", "slice", "compose", "cond", "ext", "subst"}
   Rand = FALSE
 INIT Init
 NEXT Next
